@@ -464,6 +464,12 @@ func runWorkerOnce(scratch string, idx, attempt int, b Batch) (results []Result,
 	}
 	cmd.Env = append(cmd.Env, b.Env...)
 	os.MkdirAll(base+".d", 0755)
+	// an empty private working directory: code under test that loses its root and writes to a relative path lands
+	// here (C07 reads it as a canary) instead of in /verif
+	cwd := base + ".cwd"
+	os.MkdirAll(cwd, 0755)
+	cmd.Dir = cwd
+	cmd.Env = append(cmd.Env, "VERIF_CWD_CANARY="+cwd)
 	timeout := b.Timeout
 	if timeout == 0 {
 		timeout = 600
@@ -730,6 +736,21 @@ func RunReplay(path string) int {
 		return 2
 	}
 	return code
+}
+
+// CwdCanary lists what has appeared in the worker's (initially empty) working directory; nil when the process was
+// not started by the parent with a canary directory.
+func CwdCanary() []string {
+	d := os.Getenv("VERIF_CWD_CANARY")
+	if d == "" {
+		return nil
+	}
+	es, _ := os.ReadDir(d)
+	var out []string
+	for _, e := range es {
+		out = append(out, e.Name())
+	}
+	return out
 }
 
 // ScratchDir returns a per-worker scratch directory (removed by the parent).
